@@ -181,6 +181,7 @@ class Executor:
         self.inline = inline
         self.effects = []
         self.calls = []
+        self.membership = {}  # (container key, item key) -> bool: what this path itself stored into / deleted from an opaque container
         self.order = []
         self.depth = 0
         self.pure_calls = set(pure_calls)
@@ -536,6 +537,8 @@ class Executor:
                     if self.cmp1(ast.Eq(), l, i, node):
                         res = True
                         break
+            elif (vkey(r), vkey(l)) in self.membership:
+                res = self.membership[(vkey(r), vkey(l))]
             else:
                 res = self.ask_bool(f"in:{vkey(l)}:{vkey(r)}")
             return res if isinstance(op, ast.In) else not res
@@ -841,6 +844,7 @@ class Executor:
             else:
                 idx = self.ev(target.slice, env)
                 k = f"{vkey(base)}[{vkey(idx)}]"
+                self.membership[(vkey(base), vkey(idx))] = True
             env[k] = value
             self.effect(kind, k, vkey(value), node)
             return
@@ -920,6 +924,11 @@ class Executor:
 
     def s_Delete(self, s, env):
         for t in s.targets:
+            if isinstance(t, ast.Subscript) and not isinstance(t.slice, ast.Slice):
+                try:
+                    self.membership[(vkey(self.ev(t.value, env)), vkey(self.ev(t.slice, env)))] = False
+                except Unrecognised:
+                    pass
             self.effect("del", chain(t) or src(t), "", s)
 
     def s_FunctionDef(self, s, env):
